@@ -24,6 +24,7 @@ import (
 	"path/filepath"
 	"regexp"
 	"runtime"
+	"sort"
 	"strings"
 )
 
@@ -303,6 +304,17 @@ func (r *repoFacts) scan(path string, src []byte) {
 	}
 }
 
+// lockedClear wraps the assignments in the cache mutex when there is one.
+func lockedClear(hasMutex bool, body string) string {
+	if body == "" {
+		return ""
+	}
+	if hasMutex {
+		return "\tcacheMutex.Lock()\n" + body + "\tcacheMutex.Unlock()\n"
+	}
+	return body
+}
+
 func (r *repoFacts) hasFields(typ string, names ...string) bool {
 	m := r.fields[typ]
 	if m == nil {
@@ -332,7 +344,20 @@ func (r *repoFacts) exportFile() string {
 		b.WriteString("func VerifResetPools() {}\n\n")
 	}
 
-	// regexp cache
+	// regexp cache: besides reDict itself, every other package-level map of compiled expressions (a
+	// spare snapshot, a negative cache ...) is emptied with the cache, so that executions start from
+	// the same state whatever came before
+	var spare []string
+	for name, init := range r.vars {
+		if name != "reDict" && strings.Contains(init, "map[string]") && strings.Contains(init, "Regexp") {
+			spare = append(spare, name)
+		}
+	}
+	sort.Strings(spare)
+	clearSpare := ""
+	for _, n := range spare {
+		clearSpare += "\t" + n + " = nil\n"
+	}
 	init, has := r.vars["reDict"]
 	_, hasMutex := r.vars["cacheMutex"]
 	switch {
@@ -358,7 +383,7 @@ func VerifSetRegexpCache(patterns ...string) {
 	for _, p := range patterns {
 		m[p] = re.MustCompile(p)
 	}
-	reDict.Store(m)
+` + lockedClear(hasMutex, clearSpare) + `	reDict.Store(m)
 }
 
 `)
@@ -387,7 +412,7 @@ func VerifSetRegexpCache(patterns ...string) {
 	for _, p := range patterns {
 		reDict[p] = re.MustCompile(p)
 	}
-}
+` + clearSpare + `}
 
 `)
 	default:
